@@ -109,6 +109,12 @@ func genPlanC17(rt *rapid.T, real bool) *Plan {
 			total += g.AfterUs
 			tag++
 			p.Gw = append(p.Gw, g)
+			if !c.TCP && rapid.IntRange(0, 7).Draw(rt, "repetition-inside-burst") == 0 {
+				// the gateway repeats the request it sent last (its acknowledgement was lost): re-acknowledged, not
+				// delivered again - and the telegrams parked before and after it keep their order
+				p.Gw = append(p.Gw, GwStep{Kind: "req", Chan: "cur", Seq: "prev", Tag: tag - 1, AfterUs: rapid.SampledFrom([]int{0, 0, 1, 30}).Draw(rt, "rep-gap"),
+					Repeat: rapid.SampledFrom([]int{0, 0, 1}).Draw(rt, "rep-n")})
+			}
 		}
 	}
 	switch rapid.IntRange(0, 2).Draw(rt, "consumer") {
